@@ -114,4 +114,113 @@ NestedPrograms(full) ==
        : p \in 1..Holes(ko)} : ki \in KindSet} : ko \in KindSet}
 
 DerivedFamily(full) == SinglePrograms \cup BinderPrograms \cup NestedPrograms(full)
+
+----------------------------------------------------------------------------
+(* C01: procedure skeletons (0..MaxN fixed parameters, with and without a rest parameter) x body
+   kinds x every argument tuple over a small domain, each called through four equivalent
+   spellings: direct, through a rest-parameter wrapper with car/cdr, and twice through apply. *)
+ArgDom == {MkInt(0), MkInt(2), False}
+ParamNames == <<"p1", "p2", "p3">>
+Params(n) == SubSeq(ParamNames, 1, n)
+P(i) == Var(ParamNames[i])
+CoreKinds == {"first", "last", "sum", "rest", "restcar", "internal", "mutual", "closure", "truthy", "shadow", "hof", "quoted"}
+Applicable(k, n, r) ==
+  CASE k \in {"first", "internal", "closure", "truthy", "shadow", "hof"} -> n >= 1
+    [] k \in {"last", "sum"} -> n >= 2
+    [] k \in {"rest", "restcar"} -> r
+    [] OTHER -> TRUE
+\* <<internal definitions, body expressions>>
+CoreBody(k, n) ==
+  CASE k = "first"   -> <<<<>>, <<Tick(1, P(1))>>>>
+    [] k = "last"    -> <<<<>>, <<Tick(1, Num(0)), P(n)>>>>
+    [] k = "sum"     -> <<<<>>, <<Call("+", <<P(1), Call("*", <<Num(2), P(2)>>)>>)>>>>
+    [] k = "rest"    -> <<<<>>, <<Var("rest")>>>>
+    [] k = "restcar" -> <<<<>>, <<If3(Call("null?", <<Var("rest")>>), Num(0), Call("car", <<Var("rest")>>))>>>>
+    [] k = "internal" ->
+         <<<<B("helper", Fn(<<"z">>, <<Call("list", <<Var("z"), P(1)>>)>>)),
+             B("twice", Fn(<<"z">>, <<Call("helper", <<Call("helper", <<Var("z")>>)>>)>>))>>,
+           <<Call("twice", <<Num(7)>>)>>>>
+    [] k = "mutual" ->
+         <<<<B("ev", Fn(<<"k">>, <<If3(Call("=", <<Var("k"), Num(0)>>), Lit(True), Call("od", <<Call("-", <<Var("k"), Num(1)>>)>>))>>)),
+             B("od", Fn(<<"k">>, <<If3(Call("=", <<Var("k"), Num(0)>>), Lit(False), Call("ev", <<Call("-", <<Var("k"), Num(1)>>)>>))>>))>>,
+           <<Call("list", <<Call("ev", <<Num(4)>>), Call("od", <<Num(4)>>)>>)>>>>
+    [] k = "closure" -> <<<<>>, <<Fn(<<"y">>, <<Call("list", <<Var("y"), P(1)>>)>>)>>>>
+    [] k = "truthy"  -> <<<<>>, <<If3(P(1), Quote(MkSym("yes")), Quote(MkSym("no")))>>>>
+    [] k = "shadow"  -> <<<<>>, <<Call("list", <<App(Fn(<<"p1">>, <<Call("list", <<Var("p1")>>)>>), <<Num(99)>>), P(1)>>)>>>>
+    [] k = "hof"     -> <<<<>>, <<Call("map", <<Fn(<<"z">>, <<Call("list", <<Var("z"), P(1)>>)>>), Quote(MkList(<<MkInt(1), MkInt(2)>>))>>)>>>>
+    [] k = "quoted"  -> <<<<>>, <<Quote(MkList(<<MkSym("a"), MkList(<<MkInt(1)>>), MkSym("b")>>))>>>>
+
+CoreLambda(k, n, r) == Lam(Params(n), IF r THEN "rest" ELSE "", CoreBody(k, n)[1], CoreBody(k, n)[2])
+Selector(i) == CASE i = 1 -> "car" [] i = 2 -> "cadr" [] i = 3 -> "caddr"
+\* the same procedure spelled with a single rest parameter and car/cdr
+RestSpelling(k, n, r) ==
+  Lam(<<>>, "all", <<>>,
+      <<Call("apply", <<CoreLambda(k, n, r), Var("all")>>)>>)
+CarCdrSpelling(k, n) ==
+  Lam(<<>>, "all", <<>>,
+      <<App(CoreLambda(k, n, FALSE), [i \in 1..n |-> Call(Selector(i), <<Var("all")>>)])>>)
+Extras == {<<>>, <<Num(7)>>, <<Num(7), Num(8)>>}
+ArgExprs(vals) == [i \in DOMAIN vals |-> IF i = 1 THEN Tick(10, Lit(vals[i])) ELSE Lit(vals[i])]
+FinishCall(k, call) == IF k = "closure" THEN App(call, <<Num(9)>>) ELSE call
+CoreProgram(k, n, r, vals, ex) ==
+  LET args == ArgExprs(vals) \o ex
+      g == IF r THEN RestSpelling(k, n, r) ELSE CarCdrSpelling(k, n)
+  IN [forms |-> <<Define("f", CoreLambda(k, n, r)),
+                  Define("g", g),
+                  FinishCall(k, Call("f", args)),
+                  FinishCall(k, Call("g", args)),
+                  FinishCall(k, Call("apply", <<Var("f"), Call("list", args)>>)),
+                  FinishCall(k, IF args = <<>> THEN Call("apply", <<Var("g")>>)
+                            ELSE Call("apply", <<Var("g"), args[1], Call("list", Tail(args))>>))>>,
+      tag |-> <<"core", k, n, r>>]
+CoreFamily(maxn) ==
+  UNION {UNION {UNION {UNION {
+      {CoreProgram(k, n, r, vals, ex) : ex \in (IF r THEN Extras ELSE {<<>>})}
+        : vals \in [1..n -> ArgDom]}
+        : k \in {kk \in CoreKinds : Applicable(kk, n, r)}}
+        : r \in BOOLEAN} : n \in 0..maxn}
+
+----------------------------------------------------------------------------
+(* C08: one faulting operation x calling context, with an effect before the fault in the same
+   form and probe forms after it. *)
+FaultKinds == {"NonProcedure", "ArityMany", "ArityFew", "ArityPrim", "UnboundRead", "UnboundAssign", "WrongType",
+               "IndexRange", "ImmutableVector", "DivByZero"}
+FaultExpr(k) ==
+  CASE k = "NonProcedure"    -> App(Num(5), <<Num(1)>>)
+    [] k = "ArityMany"       -> Call("one", <<Num(1), Num(2)>>)
+    [] k = "ArityFew"        -> Call("one", <<>>)
+    [] k = "ArityPrim"       -> Call("cons", <<Num(1)>>)
+    [] k = "UnboundRead"     -> Var("nope")
+    [] k = "UnboundAssign"   -> Set("nope", Num(1))
+    [] k = "WrongType"       -> Call("car", <<Num(5)>>)
+    [] k = "IndexRange"      -> Call("vector-ref", <<Call("vector", <<Num(1), Num(2)>>), Num(2)>>)
+    [] k = "ImmutableVector" -> Call("vector-set!", <<Quote([t |-> "vlit", xs |-> <<MkInt(1), MkInt(2)>>]), Num(0), Num(9)>>)
+    [] k = "DivByZero"       -> Call("/", <<Num(1), Num(0)>>)
+ExpectedKind(k) == IF k \in {"ArityMany", "ArityFew", "ArityPrim"} THEN "Arity"
+                   ELSE IF k \in {"UnboundRead", "UnboundAssign"} THEN "Unbound" ELSE k
+Bump == Set("s", Call("+", <<Var("s"), Num(1)>>))
+FaultContexts == {"direct", "nontail", "tail", "tailif", "apply", "map", "foreach", "foldl", "operand", "derived", "nested2"}
+\* <<definitions needed, the faulting top-level form>>
+InFaultContext(c, F) ==
+  CASE c = "direct"  -> <<<<>>, Begin(<<Bump, F>>)>>
+    [] c = "nontail" -> <<<<Define("g", Lam(<<>>, "", <<>>, <<Bump, F>>))>>, Call("+", <<Num(1), Call("g", <<>>)>>)>>
+    [] c = "tail"    -> <<<<Define("h", Lam(<<>>, "", <<>>, <<Bump, F>>)), Define("g", Lam(<<>>, "", <<>>, <<Call("h", <<>>)>>))>>,
+                          Call("g", <<>>)>>
+    [] c = "tailif"  -> <<<<Define("h", Lam(<<"q">>, "", <<>>, <<Bump, If3(Var("q"), F, Num(0))>>)),
+                            Define("g", Lam(<<>>, "", <<>>, <<Call("h", <<Num(1)>>)>>))>>, Call("g", <<>>)>>
+    [] c = "apply"   -> <<<<>>, Call("apply", <<Lam(<<"q">>, "", <<>>, <<Bump, F>>), Quote(MkList(<<MkInt(1)>>))>>)>>
+    [] c = "map"     -> <<<<>>, Call("map", <<Lam(<<"q">>, "", <<>>, <<Bump, F>>), Quote(MkList(<<MkInt(1), MkInt(2)>>))>>)>>
+    [] c = "foreach" -> <<<<>>, Call("for-each", <<Lam(<<"q">>, "", <<>>, <<Bump, F>>), Quote(MkList(<<MkInt(1), MkInt(2)>>))>>)>>
+    [] c = "foldl"   -> <<<<>>, Call("fold-left", <<Lam(<<"q", "acc">>, "", <<>>, <<Bump, F>>), Num(0), Quote(MkList(<<MkInt(1), MkInt(2)>>))>>)>>
+    [] c = "operand" -> <<<<>>, Call("list", <<Num(1), Begin(<<Bump, F>>)>>)>>
+    [] c = "derived" -> <<<<>>, Let(<<B("q", Num(1))>>, <<CondElse(<<Clause(Lit(False), <<Num(0)>>)>>, <<Bump, When(Var("q"), <<F>>)>>)>>)>>
+    [] c = "nested2" -> <<<<Define("h", Lam(<<>>, "", <<>>, <<Bump, F>>)), Define("g", Lam(<<>>, "", <<>>, <<Call("list", <<Call("h", <<>>)>>)>>))>>,
+                          Call("car", <<Call("g", <<>>)>>)>>
+FaultProgram(k, c, pre) ==
+  LET x == InFaultContext(c, FaultExpr(k)) IN
+  [forms |-> <<Define("s", Num(0)), Define("one", Fn(<<"z">>, <<Var("z")>>))>> \o x[1]
+             \o [i \in 1..pre |-> Bump]
+             \o <<x[2], Var("s"), Call("one", <<Num(7)>>), Bump, Var("s")>>,
+   tag |-> <<"fault", k, c, pre>>]
+FaultFamily == {FaultProgram(k, c, pre) : k \in FaultKinds, c \in FaultContexts, pre \in {0, 1}}
 =============================================================================
